@@ -74,7 +74,7 @@ func (x *Exec) libCall(st *State, fn *ssa.Function, args []Value, pos token.Pos,
 		k(st, []Value{prefixOf(T(1), T(0))})
 		return
 	case "strings.HasSuffix":
-		k(st, []Value{App("str.suffixof", "Bool", T(1), T(0))})
+		k(st, []Value{suffixOf(T(1), T(0))})
 		return
 	case "strings.Contains":
 		k(st, []Value{App("str.contains", "Bool", T(0), T(1))})
@@ -87,7 +87,7 @@ func (x *Exec) libCall(st *State, fn *ssa.Function, args []Value, pos token.Pos,
 		return
 	case "strings.TrimSuffix":
 		s, suf := T(0), T(1)
-		k(st, []Value{Ite(App("str.suffixof", "Bool", suf, s), substr(s, IntT(0), Sub(StrLen(s), StrLen(suf))), s)})
+		k(st, []Value{Ite(suffixOf(suf, s), substr(s, IntT(0), Sub(StrLen(s), StrLen(suf))), s)})
 		return
 	case "strings.Split":
 		s, sep := T(0), T(1)
@@ -211,7 +211,21 @@ func prefixOf(p, s *Term) *Term {
 	if p.Kind == KStr && s.Kind == KStr {
 		return BoolT(strings.HasPrefix(s.S, p.S))
 	}
+	if p.Kind == KStr && len(p.S) == 1 {
+		// one-character prefix: same shape as the code's s[0] test
+		return Eq(App("str.at", "String", s, IntT(0)), p)
+	}
 	return App("str.prefixof", "Bool", p, s)
+}
+
+func suffixOf(p, s *Term) *Term {
+	if p.Kind == KStr && s.Kind == KStr {
+		return BoolT(strings.HasSuffix(s.S, p.S))
+	}
+	if p.Kind == KStr && len(p.S) == 1 {
+		return Eq(App("str.at", "String", s, Sub(StrLen(s), IntT(1))), p)
+	}
+	return App("str.suffixof", "Bool", p, s)
 }
 
 func trimSpace(s *Term) *Term {
